@@ -59,4 +59,4 @@ ev = {"property_id": "C20", "tier": tier, "seed": int(os.environ.get("VERIF_SEED
       "wall_s": round(time.time() - start, 2), "violations": nviol}
 os.makedirs("/verif/evidence", exist_ok=True)
 open("/verif/evidence/C20.json", "w").write(json.dumps(ev, indent=1))
-sys.exit(2 if infra else (1 if nviol else 0))
+sys.exit(1 if nviol else (2 if infra else 0))
